@@ -16,6 +16,16 @@ CLAIMED = {
             'Exact regime (integer-valued samples, exactly representable sums); datasets sampled by a seeded driver, histories exhaustive '
             'up to the bound; LUT builder memoised per class list; inexact regime compared with an error envelope outside TLC.',
             '6/C01'),
+    'C16': ('TLA+ mechanism model of update() step order (DistinguisherK.tla: repaired order verified, pinned order refuted) + '
+            'history machine with rejected calls (Distinguisher.tla) model-checked by TLC; histories replayed on the real objects; '
+            'recorded executions with injected faults validated by TLC',
+            'TLC checks on the code-shaped model that a raise at any statement of update() leaves marker/count/accumulators as at call '
+            'entry and that a valid call is always accepted; every history with <= 2-3 rejected calls of every applicable fault kind at '
+            'every position (incl. first call) is replayed on all real distinguishers: the fault is refused, the state is bit-identical, '
+            'later results equal those of the accepted batches only.',
+            'Fault kinds: non-ndarray arguments, row-count mismatch, trace-length / word-count mismatch, DPA non-binary or float data, '
+            'undeclared classes out of range, template word count, matching with wrong trace size. Memory-estimate rejection not injected.',
+            '6/C16'),
 }
 
 NOT_APPLICABLE = {}
